@@ -146,21 +146,29 @@ CLAIMS["C13"] = dict(
           "expressions: the nucleotide set holds A C G T U N in both cases, both sets are case-closed, array sizes and loop "
           "ranges equal the literal lengths; the voting filter, evaluated for all 128 characters, lets exactly the letters "
           "vote; every nucleotide letter weighs strictly more under the nucleotide model (so all-nucleotide input is "
-          "nucleotide for any gaps/order/names); the larger total selects the matching biotype; the kind gates the type."),
-    note=("The quantitative protein premise (a quarter protein-only letters) is an inequality between run-time weighted sums "
-          "and is NOT decided (its constant margins are reported). Assumes C-locale isalpha."),
-    technique="effect summary (read set), constant evaluation of the letter models, finite evaluation of the voting filter",
-    design_ref="DESIGN.md section 3, C13 (R13a-R13c)")
+          "nucleotide for any gaps/order/names); the second premise is decided per letter: the totals are linear in the "
+          "histogram, so for each protein-only letter of the documented protein alphabet the worst composition (a quarter of "
+          "that letter, three quarters of the shared letter that pulls hardest towards nucleotide) is evaluated exactly; the "
+          "larger total selects the matching biotype; msa.biotype is assigned a kind only by detect_alphabet; the kind gates the type."),
+    note=("Known finding F24 (recorded, not repaired): the second premise fails literally for the letters B, Z and X, which are not "
+          "in the protein model (replay: findings/F24). Assumes C-locale isalpha."),
+    technique="effect summary (read set), constant evaluation of the letter models, finite evaluation of the voting filter, who-may-write",
+    design_ref="DESIGN.md section 3, C13 (R13a-R13e)")
 
 CLAIMS["C14"] = dict(
     text=("Decides non-interference of case and T/U spelling: among everything kalign_run runs before finalise_alignment "
           "only the letter-to-code function reads msa_seq.seq and the letter only indexes the alphabet table; the tables of "
           "all alphabets kalign_run selects are computed by constant evaluation of create_alphabet (loops unrolled, calls "
           "inlined) and compared entry by entry: every upper-case letter and its lower-case twin share a code, only letters "
-          "have codes, T/U/t/u share one code and A,C,G,T are distinct; the kind decision's nucleotide set contains T,U,t,u."),
-    note="Assumes C-locale isalpha and that readers keep exactly the isalpha characters (decided under C04).",
-    technique="who-may-read over the call graph + constant evaluation of the alphabet constructors",
-    design_ref="DESIGN.md section 3, C14 (R14a-R14c)")
+          "have codes, T/U/t/u share one code and A,C,G,T are distinct; the kind decision is blind to spelling exactly when "
+          "each letter's margin (nucleotide weight - protein weight) equals that of its case twin and T's equals U's, which is "
+          "evaluated from the reconstructed models; in each reader every letter and its case twin take the same branch of the "
+          "character classification (all byte values evaluated)."),
+    note=("Known finding F23 (recorded, not repaired): T is a letter of the protein model and U is not, so nucleotide input with "
+          "more than ~10% ambiguity letters is detected as protein in T spelling and nucleotide in U spelling (replay: "
+          "findings/F23). Assumes C-locale isalpha."),
+    technique="who-may-read over the call graph + constant evaluation of the alphabet constructors and letter models + finite evaluation of the readers' character tests",
+    design_ref="DESIGN.md section 3, C14 (R14a-R14f)")
 
 CLAIMS["C16"] = dict(
     text=("Decides that there is no channel from one library call to the next: every file-scope variable and function-local "
